@@ -1,0 +1,49 @@
+//go:build verif
+
+// Contract for the verifier of the permutation argument of this curve (comment-only; installed by /verif/gcv
+// gen-contracts). Layer: scalars are elements of an abstract commutative ring, *big.Int cells hold mathematical
+// integers, group elements and pairing lines are values of uninterpreted sorts; the Fiat-Shamir derivations and
+// the KZG verifications are opaque calls whose arguments and results are captured at the call site.
+// Acceptance-implies-check: nil is returned only if
+//   (relation)   (eps - v1) s - (eps - v0) v2 + (v2 - 1) L0(eta) omega == (eta^n - 1) v3,  L0(eta) = (eta^n - 1)/(eta - 1),
+//                with v0..v3 the batched claimed values, s the shifted claimed value and eps, omega, eta the three
+//                challenges in the order they are derived (from (t1, t2), z, q);
+//   (openings)   the batched opening of (t1, t2, z, q) at eta and the opening of z at eta*g both verified;
+//   (generator)  g^(n/2) != 1 and g^n == 1 with n/2 the integer half of the size.
+
+package permutation
+
+//@ func Verify
+//@ layer ring fr.Element bigint big.Int opaque bw6761.G1Affine bw6761.G2Affine bw6761.LineEvaluationAff
+//@ option opaque-calls
+//@ option nomerge
+//@ option split-post
+//@ requires len(proof.batchedProof.ClaimedValues) >= 4 && proof.size >= 0
+//@ ghost eps = 0
+//@ ghost omega = 0
+//@ ghost eta = 0
+//@ ghost batchok = false
+//@ ghost shiftok = false
+//@ cut after call deriveRandomness #1
+//@ + ghost eps = callresult0
+//@ cut after call deriveRandomness #2
+//@ + ghost omega = callresult0
+//@ cut after call deriveRandomness #3
+//@ + ghost eta = callresult0
+//@ cut after call BatchVerifySinglePoint #1
+//@ + ghost batchok = isnil(callresult) && len(callarg0) == 4 && callarg0[0] == proof.t1 && callarg0[1] == proof.t2 && callarg0[2] == proof.z && callarg0[3] == proof.q && same(callarg1, &proof.batchedProof) && callarg2 == eta
+//@ cut after call Verify #1
+//@ + ghost shiftok = isnil(callresult) && *callarg0 == proof.z && same(callarg1, &proof.shiftedProof) && callarg2 == eta * proof.g
+//@ ghost-final zn = rexp(eta, proof.size) - 1
+//@ ghost-final l0 = zn * inv(eta - 1)
+//@ ghost-final v0 = proof.batchedProof.ClaimedValues[0]
+//@ ghost-final v1 = proof.batchedProof.ClaimedValues[1]
+//@ ghost-final v2 = proof.batchedProof.ClaimedValues[2]
+//@ ghost-final v3 = proof.batchedProof.ClaimedValues[3]
+//@ ghost-final sh = proof.shiftedProof.ClaimedValue
+//@ ghost-final half = rexp(proof.g, proof.size / 2)
+//@ ensures[relation] isnil(result) ==> iszero((eps - v1)*sh - (eps - v0)*v2 + (v2 - 1)*l0*omega - zn*v3)
+//@ ensures[openings] isnil(result) ==> batchok && shiftok
+//@ ensures[generator] isnil(result) ==> !iszero(half - 1) && iszero(half*half - 1)
+//@ modifies nothing
+//@ end
